@@ -12,7 +12,8 @@ from it.
              'via': 'parse' | 'string' | 'struct'}     how the call form builds the component
     mix   = {'t': 'm', 'mode': 'wt' | 'vol' | 'mass' | 'layer',
              'parts': [part, ...], 'seps': [' // ', ...], 'pad': '' | ' ',
-             'tag': [value_text, kind] | None}         density tag of the parenthesised group
+             'tag': [value_text, kind] | None,         density tag of the parenthesised group
+             'fp': 'grid' | 'short'}                   optional (percentage forms): trace remainder, see `remainder`
     part  = {'q': text | None, 'unit': spelling-or-unit, 'gap': '' | ' ', 'node': leaf | mix}
           | {'rep': count_text, 'node': mix}           repeated group '( ... )n' (mass and layer forms)
 
@@ -314,11 +315,14 @@ class Lib(object):
     """The library entry points used by the call form (passed in, so that this module never
     imports the library)."""
 
-    def __init__(self, formula, mix_by_weight, mix_by_volume, lookup):
+    def __init__(self, formula, mix_by_weight, mix_by_volume, lookup, strings_ok=True):
         self.formula = formula
         self.mix_by_weight = mix_by_weight
         self.mix_by_volume = mix_by_volume
         self.lookup = lookup      # key -> library atom
+        # False: a component is never handed to the mixer as a string (the mixer would parse it on
+        # its own table); it is parsed by self.formula first and passed as a Formula object
+        self.strings_ok = strings_ok
 
 
 def _lib_struct(sj, lib):
@@ -342,8 +346,26 @@ def leaf_formula(node, lib):
 
 
 def remainder(node):
-    """Exact percentage left to the last part."""
+    """Exact percentage left to the last part.  In a node marked 'fp' (trace remainders, see
+    MixtureGen.trace_percents) each stated percentage stands for the double nearest to its text
+    (what any caller or parser holding the number as a float has); the generator guarantees that
+    every left-to-right partial sum of these doubles is itself a double, so that 100 - sum is the
+    same number in exact arithmetic and under any floating-point summation."""
+    if node.get('fp'):
+        return Fraction(100) - sum(Fraction(float(frac(p['q']))) for p in node['parts'][:-1])
     return Fraction(100) - sum(frac(p['q']) for p in node['parts'][:-1])
+
+
+def exact_float_sum(values):
+    """Fraction sum of the doubles if every left-to-right partial sum is exactly representable
+    (naive, compensated and exactly rounded summation then all return it), else None."""
+    s, exact = 0.0, Fraction(0)
+    for x in values:
+        s += x
+        exact += Fraction(x)
+        if Fraction(s) != exact:
+            return None
+    return exact
 
 
 def build_call(node, lib, scale=None, trace=None):
@@ -375,7 +397,7 @@ def build_call(node, lib, scale=None, trace=None):
         arg = f
         if scale and i in scale:
             arg = scale[i] * f
-        elif sub['t'] == 'c' and sub['via'] == 'string':
+        elif sub['t'] == 'c' and sub['via'] == 'string' and lib.strings_ok:
             arg = sub['text']
         args.extend([arg, q])
         amounts.append(q)
@@ -464,6 +486,52 @@ class MixtureGen(object):
             texts[rng.randrange(n - 1)] = zero_text(rng)
         return texts, False
 
+    def trace_percents(self, n):
+        """Texts of n-1 stated percentages that leave a tiny positive remainder (1e-12 .. 1e-6 percent)
+        to the last part, or None.  Two renderings:
+
+        grid   every percentage is a multiple of 2**-46 (the spacing of doubles next to 100) written
+               with all its decimal digits, so the string denotes exactly a double and all sums of
+               these numbers below 128 are doubles;
+        short  ordinary short literals ('99.999999999', '60' + '39.9999999995'); kept only if every
+               left-to-right partial sum of the nearest doubles is exact.
+
+        In both, the remainder the string denotes for holders of doubles is 100 - sum(doubles),
+        without any rounding (see `remainder`); it is required to be positive."""
+        rng = self.rng
+        short = rng.random() < 0.5
+        for attempt in range(60):
+            grid = not short or attempt >= 30       # many-part short literals rarely add up exactly
+            r = log_uniform(rng, -12, -6)
+            others = [0.9 * log_uniform(rng, -10, 1.6) for _ in range(n - 2)]
+            if sum(others) > 95:
+                continue
+            if grid:
+                G = 2 ** 46
+                ks = [max(1, int(round(v * G))) for v in others]
+                kr = max(1, int(round(r * G)))
+                ks.append(100 * G - sum(ks) - kr)
+                texts = [format(Decimal(k / G), 'f') for k in ks]      # k/G is exact; Decimal(float) is exact
+            else:
+                texts = [decimal_text(rng, v) for v in others]
+                # 100 - sum - r needs at most 3 + 18 digits: exact in the default 28-digit context
+                big = Decimal(100) - sum((Decimal(t) for t in texts), Decimal(0)) \
+                    - Decimal(decimal_text(rng, r, maxsig=3))
+                texts.append(format(big, 'f'))
+            if any(frac(t) <= 0 for t in texts):
+                continue
+            rng.shuffle(texts)
+            total = exact_float_sum([float(frac(t)) for t in texts])
+            if total is None:
+                continue
+            rem = Fraction(100) - total
+            if not (Fraction(1, 10 ** 13) <= rem <= Fraction(2, 10 ** 6)):
+                continue
+            if grid and any(Fraction(float(frac(t))) != frac(t) for t in texts):
+                continue
+            return texts, ('grid' if grid else 'short')
+        return None
+
     def amount(self, mode, unit):
         """Decimal text of a quantity whose absolute size is log-uniform over 12 decades."""
         rng = self.rng
@@ -494,12 +562,24 @@ class MixtureGen(object):
         n = nparts or rng.choice([nmin, 2, 2, 3, 3, 4, 5, 6])
         n = max(n, nmin)
         parts = []
+        fp = None
         if mode in ('wt', 'vol'):
-            texts, full = self.percents(n)
+            trace = self.trace_percents(n) if (depth == 0 and opts.get('trace')) else None
+            if trace:
+                texts, fp = trace
+            else:
+                texts, full = self.percents(n)
             spell = rng.choice(WT_SPELLINGS if mode == 'wt' else VOL_SPELLINGS)
             for i in range(n):
                 node = self.component(depth, need_density or mode == 'vol', opts)
                 if i == n - 1:
+                    if fp:
+                        # the trace component names atoms of its own (its loss must show in the atoms)
+                        used = set().union(*[node_keys(p['node']) for p in parts])
+                        for _ in range(12):
+                            if not (node_keys(node) & used):
+                                break
+                            node = self.leaf(need_density or mode == 'vol')
                     parts.append({'q': None, 'unit': None, 'gap': '', 'node': node})
                 else:
                     sp = spell if i == 0 else rng.choice([spell, '%', '%', rng.choice(
@@ -539,16 +619,23 @@ class MixtureGen(object):
                     unit = rng.choice(list(LENGTH_M))
                 q = zero_text(rng) if i == zero_at else self.amount(mode, unit)
                 parts.append({'q': q, 'unit': unit, 'gap': rng.choice(['', ' ']), 'node': node})
-        return {'t': 'm', 'mode': mode, 'parts': parts,
-                'seps': [rng.choice(PARTSEPS) for _ in range(len(parts) - 1)],
-                'pad': rng.choice(['', '', ' ']), 'tag': None}
+        out = {'t': 'm', 'mode': mode, 'parts': parts,
+               'seps': [rng.choice(PARTSEPS) for _ in range(len(parts) - 1)],
+               'pad': rng.choice(['', '', ' ']), 'tag': None}
+        if fp:
+            out['fp'] = fp
+        return out
 
     def case(self, feature=None, mode=None):
         """One case.  feature: None | 'litre-first' | 'layer-repeat' | 'count-after-percent'
-        (rendering patterns that hit candidate defects; never produced unless asked for)."""
+        (rendering patterns that hit candidate defects; never produced unless asked for)
+        | 'trace-remainder' (top-level percentage form whose last part gets 1e-12 .. 1e-6 percent)."""
         rng = self.rng
         opts = {'p_nested': rng.choice([0.0, 0.15, 0.3]), 'p_repeat': rng.choice([0.0, 0.15, 0.3])}
-        if feature == 'litre-first':
+        if feature == 'trace-remainder':
+            opts['trace'] = True
+            mode = rng.choice(['wt', 'vol'])
+        elif feature == 'litre-first':
             opts['litre_first'] = 'pending'
             mode = 'mass'
         elif feature == 'layer-repeat':
